@@ -234,6 +234,7 @@ func ChildMain(argJSON string) int {
 	}
 	n := p.Cases(a.Tier)
 	lastCk := time.Now()
+	ckEvery := 1500 * time.Millisecond // grows when writing a checkpoint becomes expensive (large shape sets)
 	runIdx := func(i int) {
 		if hb != nil {
 			hb.WriteAt([]byte(fmt.Sprintf("%012d\n", i)), 0)
@@ -265,8 +266,12 @@ func ChildMain(argJSON string) int {
 			continue
 		}
 		runIdx(i)
-		if time.Since(lastCk) > 1500*time.Millisecond {
+		if time.Since(lastCk) > ckEvery {
+			t0 := time.Now()
 			writeCk(pos+1, false)
+			if cost := time.Since(t0); 25*cost > ckEvery {
+				ckEvery = 25 * cost
+			}
 			lastCk = time.Now()
 		}
 	}
